@@ -296,7 +296,14 @@ def r13c(rep, F):
             return base(n, env)
         it.call = call
         try:
-            it.ex(blk['id'], {})
+            # from the erase statement to the end of its block (whatever tests come before it are R13d's business)
+            started = False
+            env = {}
+            for s_ in blk['ch']:
+                if any(z['id'] == ers[0]['id'] for z in rem.walk(s_)):
+                    started = True
+                if started:
+                    it.ex(s_, env)
         except fd.Return:
             pass
         if it.ops != ['external_.remove' if b else 'internal_.remove']:
@@ -442,6 +449,51 @@ def r13e(rep, F):
                 'a dequeued cell that is already marked is erased from the component vector' if ok else
                 'the component vector doubles as the work queue but already-marked entries are not removed: on a cycle a '
                 'cell is listed twice and the components no longer partition the cells')
+        # the entry erased is the one just dequeued (position index - 1 after `q[index++]`) and the index is stepped back to
+        # it, so that the entry which moves into the hole is looked at next: both in linear normal form relative to the
+        # index value after the dequeue
+        if ok:
+            ikey = None
+            for x in fn.walk(w['cond']):
+                if x['k'] == 'DeclRefExpr' and x.get('dk') == 'Local' and key(fn, x['id']) != qdecl:
+                    ikey = key(fn, x['id'])
+            deq = [x for x in fn.walk(w['body']) if x['k'] == 'UnaryOperator' and x.get('op') == '++' and x.get('post') and key(fn, x['ch'][0]) == ikey]
+            stmts = fn.nodes[el]['ch'] if fn.nodes[el]['k'] == 'CompoundStmt' else [el]
+            delta, erased, why = 0, None, None
+            if ikey is None or len(deq) != 1:
+                why = 'dequeue idiom q[index++] not recognised'
+            for s_ in stmts if why is None else []:
+                x = fn.strip(s_)
+                if x is None:
+                    continue
+                if x['k'] == 'UnaryOperator' and x.get('op') in ('++', '--') and key(fn, x['ch'][0]) == ikey:
+                    delta += 1 if x['op'] == '++' else -1
+                elif x['k'] == 'CompoundAssignOperator' and x.get('op') in ('+=', '-=') and key(fn, x['ch'][0]) == ikey:
+                    d = lin.lin(fn, x['ch'][1])
+                    if d is None or set(d) - {1}:
+                        why = 'index update not constant'
+                    else:
+                        delta += d.get(1, 0) * (1 if x['op'] == '+=' else -1)
+                elif x.get('callee') == 'std::vector::erase' and key(fn, x['ch'][0]) == qdecl:
+                    pos_ = [y for y in fn.walk(args(fn, x)[0]) if y['k'] == 'CXXOperatorCallExpr' and y.get('oop') in ('+', '-')]
+                    a = lin.lin(fn, pos_[0]['id']) if pos_ else None
+                    if a is None or a.get(ikey) != 1 or len([k for k in a if k not in (ikey, 1)]) != 1:
+                        why = 'erase position is not begin() + index + constant'
+                    else:
+                        erased = delta + a.get(1, 0)
+                elif any(key(fn, y['ch'][0]) == ikey for y in fn.walk(s_) if y['k'] in ('UnaryOperator', 'BinaryOperator', 'CompoundAssignOperator') and
+                         y.get('op') in ('++', '--', '=', '+=', '-=') and y['ch']):
+                    why = 'index update not recognised'
+            if why is None and erased is None:
+                why = 'erase position not recognised'
+            if why is not None:
+                raise AnalysisBroken('R13e: duplicate branch of Grid::components: ' + why)
+            ok2 = erased == -1 and delta == -1
+            rep.add('R13e', label(fn), 'erase-dequeued-and-step-back', ok2, fn.where(br),
+                    'erases the entry just dequeued and steps the index back to it' if ok2 else
+                    ('the entry erased is at offset %+d from the index after the dequeue (the dequeued entry is at -1)' % erased if erased != -1 else
+                     'the dequeued duplicate is erased but the index is left at offset %+d instead of -1: the entry that moves into the '
+                     'hole is never examined, so a cell stays listed without being labelled or expanded' % delta))
     # new component only from an unmarked cell, counter once per component
     outer = [a for a in fn.ancestors(w['id']) if a['k'] == 'IfStmt']
     ok = bool(outer) and lin.cmp_le0(fn, outer[0]['cond']) is not None
